@@ -363,7 +363,7 @@ MC_BOM_THOROUGH = MC_BOM_QUICK + [
 ]
 
 
-def run_mc_set(rep, binp, configs, what, module='MC_DecQ', kind='dec'):
+def run_mc_set(rep, binp, configs, what, module='MC_DecQ', kind='dec', export=True):
     """TLC exhaustive on Layer I x monitor for every configuration (up to 5 TLC instances at a time), then spec -> impl:
     the exported behaviours of all configurations are re-driven on the real code in one harness run, validated by the
     monitor (violations are fatal) and compared call by call with the model's predictions (MODEL-DRIFT notes)."""
@@ -371,7 +371,7 @@ def run_mc_set(rep, binp, configs, what, module='MC_DecQ', kind='dec'):
     t = time.time()
     # exporting runs are single-threaded (one behaviour per state, printed in BFS order): parallelism comes from the configurations
     with concurrent.futures.ThreadPoolExecutor(max_workers=10) as ex:
-        futs = [ex.submit(mc_run, module, cfg, ('NoViolation',), (), 'View', 3, 3000, True, '4g') for cfg in configs]
+        futs = [ex.submit(mc_run, module, cfg, ('NoViolation',), (), 'View', 3, 3000, export, '4g') for cfg in configs]
         runs = [f.result() for f in futs]
     log('TLC model checking of %d configurations of %s in %.1fs' % (len(configs), module, time.time() - t))
     outdir = '%s/%s/mcreplay_%s' % (RUN, rep.prop, module)
@@ -427,7 +427,7 @@ def run_mc_set(rep, binp, configs, what, module='MC_DecQ', kind='dec'):
                     e['lq'] = lq
                     lq = None
                 real[cur].append(e)
-    keys = ('res', 'ml', 'ma', 'read', 'written', 'out', 'had', 'enc', 'cap', 'q', 'lq') if kind == 'dec' else ('res', 'um', 'read', 'written', 'out', 'had', 'pending', 'cap', 'q')
+    keys = ('res', 'ml', 'ma', 'read', 'written', 'out', 'had', 'enc', 'cap', 'q', 'lq', 'post', 'pre', 'same') if kind == 'dec' else ('res', 'um', 'read', 'written', 'out', 'had', 'pending', 'cap', 'q')
     for run, hists, start in spans:
         drift = 0
         first = None
@@ -534,6 +534,25 @@ def plan_C05(rep, seed, tier):
     rv(rep, binp, 'dec-random', seed, tier, extra=['--sinks', 'str,string,utf8,utf16'], tag='dec-random-allsinks')
     rv(rep, binp, 'dec-whole', seed, tier, extra=['--sinks', 'str,string,utf8', '--thin', '6' if tier == 'quick' else '1'], tag='dec-whole-str')
     rv(rep, binp, 'dec-deep', seed, tier, extra=['--sinks', 'str,string,utf8', '--thin', '4' if tier == 'quick' else '1'], tag='dec-deep-str')
+    strcfg = [
+        C('Big5', 'off', 'str', True, 2, [4, 5, 7, 24], [0x20, 0x80, 0x87, 0x62, 0xA4, 0xFF]),
+        C('windows-1252', 'sniff', 'str', False, 2, [4, 6, 24], [0x41, 0x80, 0xEF, 0xBB, 0xBF, 0xFF]),
+        C('UTF-8', 'off', 'str', True, 2, [4, 5, 7, 24], [0x41, 0x80, 0xC2, 0xE0, 0xA0, 0xF0, 0x90]),
+        C('gb18030', 'off', 'string', True, 2, [4, 5, 24], [0x30, 0x41, 0x81, 0x84, 0xFF]),
+        C('UTF-16LE', 'off', 'str', True, 2, [4, 5, 7, 24], [0x41, 0x00, 0xD8, 0xDC, 0xFF]),
+        C('EUC-JP', 'off', 'str', False, 2, [4, 5, 24], [0x41, 0x8E, 0x8F, 0xA1, 0xB0, 0xFF]),
+    ]
+    if tier == 'thorough':
+        strcfg += [
+            C('Shift_JIS', 'off', 'str', True, 3, [4, 5, 6, 20, 24], [0x20, 0x40, 0x80, 0x81, 0xA1, 0xDF, 0xFC, 0xFD]),
+            C('ISO-2022-JP', 'off', 'string', True, 3, [4, 5, 24], [0x1B, 0x24, 0x28, 0x42, 0x4A, 0x41, 0x21, 0x80]),
+            C('UTF-16BE', 'sniff', 'str', False, 3, [4, 5, 7, 24], [0x41, 0x00, 0xD8, 0xDC, 0xFE, 0xFF]),
+            C('UTF-8', 'sniff', 'string', False, 3, [4, 5, 7, 24], [0x41, 0x80, 0xC2, 0xE0, 0xA0, 0xEF, 0xBB, 0xBF]),
+            C('windows-1252', 'off', 'str', True, 3, [4, 5, 6, 21, 22, 23, 24], [0x20, 0x41, 0x80, 0x81, 0xEF, 0xFF]),
+        ]
+    run_mc_set(rep, binp, strcfg, 'Layer I with the str / String receivers (decode_to_utf8* into the receiver, then the StrZeroing clean-up with K = 16 unless the '
+               'decoder is UTF-8 after the call): the monitor validates the whole destination in every reachable state; every (state, call) pair is replayed '
+               'and the whole destination after the call compared byte by byte', module='MC_Dec', export='steps')
     r = mc_run('MC_StrZeroing', dict(MaxLen=8 if tier == 'thorough' else 7, K=3, GarbageBytes=[65, 128, 195, 255]), invariants=('ResultValid', 'PrefixKept'), view=None, workers=8)
     rep.add_mc(r['name'], r, 'Layer I clean-up of decode_to_str* / convert_*_to_str_partial (zero MAX_STRIDE_SIZE, then strip continuation bytes): every valid old buffer, every written prefix, every garbage pattern in the stride window => valid UTF-8')
     if r.get('violated') or not r.get('completed'):
@@ -568,7 +587,8 @@ def plan_C07(rep, seed, tier):
     rv(rep, binp, 'query-overflow', seed, tier)
     mcq = (MC_CHUNKING_QUICK + MC_BOM_QUICK) if tier == 'thorough' else [MC_CHUNKING_QUICK[i] for i in (0, 2, 3, 7)] + [MC_BOM_QUICK[i] for i in (0, 2, 5)]
     run_mc_set(rep, binp, mcq, 'Layer I incl. the max_*_buffer_length formulas (MaxLen.tla): InvokeQueried issues every call with the formula value in '
-               'every reachable state; the monitor budget conjunct (C07.insufficient) is part of NoViolation; replay uses the REAL query and compares its value with the formula')
+               'every reachable state; the monitor budget conjunct (C07.insufficient) is part of NoViolation; replay of every (state, call) pair uses the REAL query and compares its value with the formula',
+               export='steps')
     mce = MC_ENC_THOROUGH if tier == 'thorough' else [
         E('GBK', 'utf8', True, 2, [14, 15, 64], [0x41, 0x80, 0x20AC, 0x4E00, 0x1F4A9]),
         E('gb18030', 'utf16', False, 2, [4, 5, 64], [0x41, 0x80, 0x4E00, 0xE5E5, 0x1F4A9, 0xD83D]),
@@ -579,7 +599,7 @@ def plan_C07(rep, seed, tier):
         E('windows-1252', 'utf16', True, 2, [14, 15, 64], [0x41, 0xE9, 0x20AC, 0x3042, 0x1F4A9]),
     ]
     run_mc_set(rep, binp, mce, 'Layer I incl. the encoder max_buffer_length_* formulas (ImplEncoder!EncoderMax): InvokeQueried in every reachable state; '
-               'replay uses the REAL query and compares its value with the formula', module='MC_Enc', kind='enc')
+               'replay of every (state, call) pair uses the REAL query and compares its value with the formula', module='MC_Enc', kind='enc', export='steps')
     rep.cov['rule'] = ('calls of the cut-set / BOM-matrix histories are issued with dst.len() == the value the matching max_*_buffer_length query returns on '
                        'the same converter in its current state for the number of units passed (every call, or alternating with small capacities 0..min+1 so that '
                        'states behind an OutputFull - pending BB, half-read escapes, pending leads - are reached); OutputFull on a queried call is a violation')
